@@ -781,7 +781,10 @@ fn freq_batches(thorough: bool, seed: u64, raster_hz: u32) -> Vec<(u32, u32, u32
     }
     // band edges
     for e in [137_000_000u32, 400_000_000, 425_000_000, 460_000_000, 525_000_000, 770_000_000, 779_000_000,
-              850_000_000, 862_000_000, 900_000_000, 1_020_000_000] {
+              850_000_000, 862_000_000, 900_000_000, 1_020_000_000,
+              // the edges of the ISM bands themselves (data sheet table 9-2), where a threshold "tidied up" to the band
+              // edge would sit
+              430_000_000, 440_000_000, 470_000_000, 510_000_000, 787_000_000, 863_000_000, 870_000_000, 902_000_000, 928_000_000] {
         v.push((e - 2, 1, 5));
     }
     if thorough {
@@ -1207,6 +1210,56 @@ pub fn vh_decode(a: &Args) {
                 cases += 1;
             }
             out.emit(&json!({"ev":"rssiinst","chip":chip,"band":band,"cases":cs}));
+        }
+    // SX127x after a band change that did not reconfigure the modulation (`rx_switch_channel` / `set_channel` into
+        // the other band): the conversion follows the band the synthesiser is tuned to NOW, whatever was configured before
+        for (chip, band, f_before, f_now) in [("sx1276", "lf", 868_100_000u32, 433_175_000u32), ("sx1276", "hf", 433_175_000, 868_100_000),
+                                               ("sx1272", "hf", 903_900_000, 868_100_000)] {
+            if !sel(a, "chips", chip) {
+                continue;
+            }
+            let mut cs_p: Vec<Value> = Vec::new();
+            let mut cs_i: Vec<Value> = Vec::new();
+            for v in 0..=255u8 {
+                let snr_raw = v.wrapping_mul(37);
+                let mut e = Env127::new();
+                e.regs[0x19] = snr_raw;
+                e.regs[0x1a] = v;
+                e.regs[0x1b] = v;
+                let spi = Spi::new(e);
+                macro_rules! history {
+                    ($rk:expr) => {{
+                        let mut rk = $rk;
+                        catch(|| {
+                            let mp = rk.create_modulation_params(lora_modulation::SpreadingFactor::_7, lora_modulation::Bandwidth::_125KHz, lora_modulation::CodingRate::_4_5, f_before).map_err(|_| ())?;
+                            block_on(rk.set_channel(f_before)).map_err(|_| ())?;
+                            block_on(rk.set_modulation_params(&mp)).map_err(|_| ())?;
+                            block_on(rk.set_channel(f_now)).map_err(|_| ())?;
+                            let p = block_on(rk.get_rx_packet_status()).map_err(|_| ())?;
+                            let i = block_on(rk.get_rssi()).map_err(|_| ())?;
+                            Ok::<_, ()>((p.rssi as i32, p.snr as i32, i as i32))
+                        })
+                    }};
+                }
+                let r = if chip == "sx1276" { history!(new_1276(&spi, false)) } else { history!(new_1272(&spi, false)) };
+                match r {
+                    Ok(Ok((rssi, snr, inst))) => {
+                        cs_p.push(json!([v, snr_raw, 0, "ok", rssi, snr]));
+                        cs_i.push(json!([v, "ok", inst]));
+                    }
+                    Ok(Err(_)) => {
+                        cs_p.push(json!([v, snr_raw, 0, "err", 0, 0]));
+                        cs_i.push(json!([v, "err", 0]));
+                    }
+                    Err(_) => {
+                        cs_p.push(json!([v, snr_raw, 0, "panic", 0, 0]));
+                        cs_i.push(json!([v, "panic", 0]));
+                    }
+                }
+                cases += 2;
+            }
+            out.emit(&json!({"ev":"pktstatus","chip":chip,"band":band,"cases":cs_p,"after":"band change without new modulation"}));
+            out.emit(&json!({"ev":"rssiinst","chip":chip,"band":band,"cases":cs_i,"after":"band change without new modulation"}));
         }
     }
     println!("events={} cases={}", out.finish(), cases);
